@@ -606,7 +606,7 @@ func init() {
 		ID:    "C17",
 		Level: "model_checking",
 		Rule: "all pairs of the numeric universe (ints -12..12, +-2^31, +-(2^53-1), 2^53, each as int and float64; other widths; quarters k/4; numeric and non-numeric strings; nil) x 5 binary filters as variables and literals; " +
-			"unary filters and round: 0..3 over the universe; all chains of 2 and 3 binary steps over {-3,-1,0,1,2,0.5,2.5}; scaled: 2^k and 2^k+-1 for k=20..52, 10^6..10^15 as int and float against 6 small operands in both positions, unary filters on them, chains of 4..129 equal steps; oracle = exact rational arithmetic (math/big); " +
+			"unary filters and round: 0..3 over the universe; all chains of 2 and 3 binary steps over {-3,-1,0,1,2,0.5,2.5}; scaled: 2^k and 2^k+-1 for k=20..52, 10^6..10^15 as int and float against 6 small operands in both positions, unary filters on them, chains of 4..129 equal steps; whole floats at and beyond the edge of int64 (2^63, 2^64, their negatives, 2^63+2^11, 1e19, 1.5e300) as scaled operands and through 12 filters, bound and made in the template (half | times: 2), output read back as a number; oracle = exact rational arithmetic (math/big); " +
 			"class = (filter, operand kinds, verdict); state = (filter, operand kinds); transition = one filter application",
 		Assumptions: []string{
 			"exact equality is demanded only when operands and every acceptable exact result are float64-representable; otherwise relative error <= 1e-9",
